@@ -628,8 +628,9 @@ def rand_dump(rng, site, bodies):
 def sweep_dumps(site):
     """One page per namespace of the language data (all selected), then the helper templates
     already present (as page / as redirect) with only some namespaces selected, then redirect
-    pages of every namespace: to the main namespace (no prefix), to their own namespace, and one
-    of: template namespace, alias / lower-case spelling, leading colon, fragment, underscore."""
+    pages of every namespace: to the main namespace (no prefix) and one of: template namespace,
+    alias / lower-case spelling, own namespace with leading colon, fragment, own namespace with
+    underscore, main namespace."""
     canon, tpl = site["canon"], site["tplns"]
     tp = canon[str(tpl)]
     pages = []
@@ -647,7 +648,7 @@ def sweep_dumps(site):
         pre = "" if i == 0 else canon[str(i)]
         spell = sorted(q for q, j in site["pfxns"].items() if j == i and q != pre)
         third = [tp + "Zed", (spell[k % len(spell)] if spell else ":") + "zed", ":" + pre + "zed", "zed#S 1", pre + "Foo_bar", "Zed"][k % 6]
-        for j, target in enumerate(["zed", pre + "R0", third]):
+        for j, target in enumerate(["zed", third]):
             pages.append((f"{pre}R{j}", i, "wikitext", target, f"#REDIRECT [[{target}]]"))
     yield pages, sorted(int(i) for i in site["names"])
 
@@ -864,7 +865,8 @@ def run(tier: str) -> int:
     if thorough:
         jobs.update(gen_jobs("Gen3", 3, "PoolQ", "SelsT", 2))
         jobs.update(gen_jobs("Gen2", 2, "PoolT", "SelsT", 6))
-        jobs.update(gen_jobs("GenR", 2, "PoolRedT", "SelsRedT", 4))
+        jobs.update(gen_jobs("GenR", 2, "PoolRedT", "SelsRed", 3))
+        jobs.update(gen_jobs("GenRs", 2, "PoolRed", "SelsRedT", 1))
     else:
         jobs.update(gen_jobs("Gen3", 3, "PoolQ", "SelsQ", 3))
         jobs.update(gen_jobs("GenR", 2, "PoolRed", "SelsRed", 1))
